@@ -132,9 +132,11 @@ def Shared.cancelled (sh : Shared) : Bool := sh.pipe.cancelled
 structure Cfg where
   n : Nat            -- numWorkers
   root : T
-  /-- `false` = the code as it is (an error that `errors.Is` context.Canceled / ErrContextTimedOut
-  ends the worker without cancelling the traversal); `true` = minimal repair (always `doneFunc()`). -/
-  fixed : Bool := false
+  /-- `true` (live) = the repaired error branch of the worker (hooks/C17-fix.patch): `doneFunc()` on EVERY
+  worker error; a context.Canceled / ErrContextTimedOut-class error is recorded iff the traversal context
+  was still live. `false` = the protocol before the repair (such an error ended the worker without
+  cancelling the traversal and without being recorded); kept only for `bf_terminates_refuted_old`. -/
+  fixed : Bool := true
 
 structure BF where
   sh : Shared := {}
@@ -192,9 +194,11 @@ def wstep (cfg : Cfg) (sh : Shared) : WState → WAct → Option (Shared × WSta
   | .decd, .complCancel => if sh.cancelled then some (sh, .exited) else none
   -- fatal error: `doneFunc()` then `errorCollector.Add`
   | .failed, .fail => some ({ (sh.setPipe { sh.pipe with cancelled := true }) with err := true }, .exitedFailed)
-  -- swallowed error: nothing happens (unrepaired code) / `doneFunc()` (repaired)
+  -- context-class error. Repaired: `fatal := traversalCtx.Err() == nil || …; doneFunc(); if fatal { collect }`
+  -- (recorded iff the traversal context was live). Before the repair: nothing happened.
   | .failedSilent, .failSilent =>
-    if cfg.fixed then some (sh.setPipe { sh.pipe with cancelled := true }, .exitedFailed)
+    if cfg.fixed then
+      some ({ (sh.setPipe { sh.pipe with cancelled := true }) with err := sh.err || !sh.cancelled }, .exitedFailed)
     else some (sh, .exitedFailed)
   | _, _ => none
 
